@@ -9,6 +9,7 @@ import (
 
 	beacon "github.com/oasisprotocol/oasis-core/go/beacon/api"
 	"github.com/oasisprotocol/oasis-core/go/common/cbor"
+	"github.com/oasisprotocol/oasis-core/go/common/crypto/signature"
 	"github.com/oasisprotocol/oasis-core/go/common/node"
 	"github.com/oasisprotocol/oasis-core/go/common/quantity"
 	"github.com/oasisprotocol/oasis-core/go/consensus/api/transaction"
@@ -223,7 +224,9 @@ func (w *world) paramChange() (module string, changes []byte, tag string) {
 		var ch schedulerAPI.ConsensusParameterChanges
 		switch r.Intn(3) {
 		case 0:
-			v := []int{-1, 0, 1, 2}[r.Intn(4)]
+			// (MinValidators above max(MaxValidators, 1) makes every election fail -- the parameter
+			// change is not validated against that: probe script minmaxvalidators)
+			v := []int{-1, 0, 1}[r.Intn(3)]
 			ch.MinValidators = &v
 		case 1:
 			v := []int{-1, 0, 1, 2, 3, 100}[r.Intn(6)]
@@ -566,6 +569,9 @@ func (w *world) randomBlock(b int) *blockPlan {
 		tx := muxdrv.TxSetEpoch(w.nextNonce(k, local), muxdrv.Fee(1, muxdrv.DefaultGas), ep+1)
 		bp.txs = append(bp.txs, genTx{raw: muxdrv.Sign(k, tx), kind: "set_epoch"})
 	}
+	if w.k.Tiny {
+		bp.txs = append(bp.txs, w.tinyJoiner(b, local)...)
+	}
 	for i := 0; i < n; i++ {
 		if t, ok := w.randomTx(local); ok {
 			bp.txs = append(bp.txs, t)
@@ -606,4 +612,27 @@ func bucket(n int) string {
 	default:
 		return "6+"
 	}
+}
+
+// tinyJoiner: fresh entities with 5..20 base units of self-escrow (thresholds 2 + 3) register
+// validator nodes in blocks 2..4; they are elected at the next epoch with a stake below one
+// voting-power unit.
+func (w *world) tinyJoiner(b int, local map[staking.Address]uint64) (out []genTx) {
+	g := w.g
+	rich := g.Accounts[4]
+	for j := 0; j < 2; j++ {
+		nv := muxdrv.NewValidator(g.Seed, 7+j)
+		esc := uint64(5 + (int(w.d.HSeed)+7*j)%16) // 5..20
+		switch b {
+		case 1:
+			out = append(out, genTx{raw: muxdrv.Sign(rich.Key, muxdrv.TxTransfer(w.nextNonce(rich.Key, local), muxdrv.Fee(3, muxdrv.DefaultGas), nv.EntityAddress(), 50_000)), kind: "tiny:fund joiner"})
+		case 2:
+			out = append(out, genTx{raw: muxdrv.Sign(nv.Entity, muxdrv.TxAddEscrow(w.nextNonce(nv.Entity, local), muxdrv.Fee(1, muxdrv.DefaultGas), nv.EntityAddress(), esc)), kind: "tiny:self-escrow 5..20"})
+			out = append(out, genTx{raw: muxdrv.Sign(nv.Entity, muxdrv.TxRegisterEntity(w.nextNonce(nv.Entity, local), muxdrv.Fee(1, 4*muxdrv.DefaultGas), nv.Entity, []signature.PublicKey{nv.Node.Public()})), kind: "tiny:register entity"})
+		case 3:
+			tx := muxdrv.TxRegisterNode(w.nextNonce(nv.Node, local), muxdrv.Fee(0, 4*muxdrv.DefaultGas), nv, muxdrv.NodeDescriptor(nv, 1000, node.RoleValidator))
+			out = append(out, genTx{raw: muxdrv.Sign(nv.Node, tx), kind: "tiny:register validator node"})
+		}
+	}
+	return out
 }
